@@ -98,6 +98,8 @@ def parse_units(path):
                         sec = ("at", "inloop_" + m2.group(2), (int(m2.group(1)), m2.group(3)))
                     elif rest == "fn_start":
                         sec = ("at", "fn_start", None)
+                    elif rest == "tail":
+                        sec = ("at", "tail", None)
                     elif mm:
                         sec = ("at", "loop_" + mm.group(2), int(mm.group(1)))
                     else:
